@@ -108,6 +108,7 @@ type Plan struct {
 	// phases
 	StableMS int `json:"stable_ms,omitempty"` // liveness budget after stabilisation
 	Free     bool `json:"free,omitempty"`     // free mode (race leg)
+	Scenario string `json:"scenario,omitempty"`
 }
 
 func ms(n int) time.Duration { return time.Duration(n) * time.Millisecond }
